@@ -745,9 +745,125 @@ def dms_unit():
                        'intrinsics_first': ('float', 'int', 'str', 'len', 'abs', 'divmod')})
 
 
+# ----------------------------------------------------------------------------------------------------------
+# geostructures/geohash.py :: NiemeyerHasher — the work-list flood fill and what is built on it   (C12)
+#
+# generic over a cell type `C` (decidable equality), a coordinate type `K`, single shapes `S`, shapes of any kind `G` and an
+# aggregate type `A`.  The geometry is abstract, exactly as in Model/Flood.lean: `nbrs` is `self._get_surrounding(·, self.base)`,
+# `touches s c` is `niemeyer_to_geobox(c, self.base).intersects_shape(s)`, `cellOf` is `_coord_to_niemeyer(·, self.length,
+# self.base)`; `cen`, `verts`, `bcoords` read `.centroid`, `.vertices`, `.bounding_coords()`; a multi-shape is the list of its
+# members.  `queue.pop()` returns `pick queue` (Python pops an arbitrary member: the schedule is a parameter, `none` is the
+# KeyError of an empty set); local sets are duplicate-free lists (`set.add` is the model's `addSet`), `defaultdict(list)` an
+# association list in insertion order; the `while queue:` loop is a fuelled recursion that reports running out of fuel.
+# In `hash_collection` the dynamic dispatch `self.hash_shape(shape)` over a mixed collection is the parameter `hashOf`;
+# `kwargs.get('agg_fn', len)` is the parameter `aggG` / `aggK` (the aggregator in force).
+
+def flood_unit():
+    src = py2lean.Source(_repo('geohash.py'))
+    N = 'NiemeyerHasher'
+    for tag, lean in (('FlCell', 'C'), ('FlCoord', 'K'), ('FlPoint', 'S'), ('FlSLine', 'S'), ('FlSPoly', 'S'), ('FlMPoint', 'List S'),
+                      ('FlMLine', 'List S'), ('FlMPoly', 'List S'), ('FlShape', 'G'), ('FlColl', 'List G'), ('FlHasher', 'Unit'),
+                      ('FlAgg', 'A'), ('FlListG', 'List G'), ('FlListK', 'List K'), ('FlLen', 'Unit'), ('FlBase', 'Unit'),
+                      ('FlBox', 'C')):
+        py2lean.LEAN_TYPE.setdefault(tag, lean)
+    H = ('self', 'FlHasher')
+    cells, ecells = 'Set FlCell', 'Except Set FlCell'
+    insts = [
+        Inst(f'{N}._hash_point', 'hashPointS', [H, ('point', 'FlPoint')], cells),
+        Inst(f'{N}._hash_point', 'hashPointM', [H, ('point', 'FlMPoint')], cells),
+        Inst(f'{N}._hash_linestring', 'hashLineS', [H, ('linestring', 'FlSLine')], ecells),
+        Inst(f'{N}._hash_linestring', 'hashLineM', [H, ('linestring', 'FlMLine')], ecells),
+        Inst(f'{N}._hash_polygon', 'hashPolyS', [H, ('polygon', 'FlSPoly')], ecells),
+        Inst(f'{N}._hash_polygon', 'hashPolyM', [H, ('polygon', 'FlMPoly')], ecells),
+        Inst(f'{N}.hash_shape', 'hashShapePoint', [H, ('shape', 'FlPoint')], cells),
+        Inst(f'{N}.hash_shape', 'hashShapeMPoint', [H, ('shape', 'FlMPoint')], cells),
+        Inst(f'{N}.hash_shape', 'hashShapeLine', [H, ('shape', 'FlSLine')], ecells),
+        Inst(f'{N}.hash_shape', 'hashShapeMLine', [H, ('shape', 'FlMLine')], ecells),
+        Inst(f'{N}.hash_shape', 'hashShapePoly', [H, ('shape', 'FlSPoly')], ecells),
+        Inst(f'{N}.hash_shape', 'hashShapeMPoly', [H, ('shape', 'FlMPoly')], ecells),
+        Inst(f'{N}.hash_coordinates', 'hashCoordinates', [H, ('coordinates', 'List FlCoord')], 'Dict FlCell FlAgg'),
+        Inst(f'{N}.hash_collection', 'hashCollection', [H, ('collection', 'FlColl')], 'Dict FlCell FlAgg'),
+    ]
+    kinds = {'FlPoint': ('PointLike', 'PointLikeMixin', 'GeoPoint', 'SingleShape'),
+             'FlMPoint': ('PointLike', 'PointLikeMixin', 'MultiGeoPoint', 'MultiShape', 'MultiShapeBase'),
+             'FlSLine': ('LineLike', 'LineLikeMixin', 'GeoLineString', 'SingleShape'),
+             'FlMLine': ('LineLike', 'LineLikeMixin', 'MultiGeoLineString', 'MultiShape', 'MultiShapeBase'),
+             'FlSPoly': ('PolygonLike', 'PolygonLikeMixin', 'SinglePolygon', 'PolygonBase', 'SingleShape'),
+             'FlMPoly': ('PolygonLike', 'PolygonLikeMixin', 'MultiGeoPolygon', 'MultiShape', 'MultiShapeBase')}
+
+    def isinstance_hook(typ):
+        return kinds.get(typ)
+
+    def cell_of(tr, args):
+        # `_coord_to_niemeyer(coordinate, self.length, self.base)`: the cell of a coordinate on this hasher's grid (C11)
+        if [a.typ for a in args] != ['FlCoord', 'FlLen', 'FlBase']:
+            raise Unsupported(f'_coord_to_niemeyer at {[a.typ for a in args]}: only (coordinate, self.length, self.base) is the grid cell')
+        return Val(f'(cellOf {py2lean._paren(args[0].text)})', 'FlCell')
+
+    def surrounding(tr, args):
+        # `self._get_surrounding(gh, self.base)`: the neighbours of a cell (C11's `surrounding`)
+        if [a.typ for a in args] != ['FlHasher', 'FlCell', 'FlBase']:
+            raise Unsupported(f'_get_surrounding at {[a.typ for a in args[1:]]}: only (cell, self.base) is the neighbour list')
+        return Val(f'(nbrs {py2lean._paren(args[1].text)})', 'List FlCell')
+
+    def cell_box(tr, args):
+        # `niemeyer_to_geobox(cell, self.base)`: the rectangle of a cell; only ever asked whether it intersects a shape
+        if [a.typ for a in args] != ['FlCell', 'FlBase']:
+            raise Unsupported(f'niemeyer_to_geobox at {[a.typ for a in args]}: only (cell, self.base) is the rectangle of a cell')
+        return Val(args[0].text, 'FlBox')
+
+    def method(tr, recv, attr, raw_args):
+        import ast as _ast
+        if recv.typ == 'Kw':
+            # `kwargs.get('agg_fn', len)`: the aggregator in force (the caller's, or `len`)
+            ok = (attr == 'get' and len(raw_args) == 2 and isinstance(raw_args[0], _ast.Constant) and raw_args[0].value == 'agg_fn'
+                  and isinstance(raw_args[1], _ast.Name) and raw_args[1].id == 'len' and 'len' not in tr.env)
+            if not ok:
+                raise Unsupported(f'`{tr.inst.qual}`: kwargs.{attr}({", ".join(_ast.unparse(a) for a in raw_args)})')
+            coll = tr.inst.qual.endswith('hash_collection')
+            return Val('aggG' if coll else 'aggK', 'Fn FlListG FlAgg' if coll else 'Fn FlListK FlAgg')
+        return None
+
+    def local_type(qual, name):
+        if name in ('valid', 'checked', 'queue') or qual.split('.')[-1] in ('_hash_linestring', '_hash_polygon', '_hash_point'):
+            return 'Set FlCell'                      # every local set of the hashers holds cells
+        if qual.endswith('hash_coordinates'):
+            return 'DDict FlCell FlCoord'
+        if qual.endswith('hash_collection'):
+            return 'DDict FlCell FlShape'
+        return None
+
+    def fuel(qual, index):
+        return 'fuel'
+
+    attr = {('FlHasher', 'length'): ('()', 'FlLen'), ('FlHasher', 'base'): ('()', 'FlBase'),
+            ('FlPoint', 'centroid'): ('(cen {})', 'FlCoord'), ('FlSLine', 'vertices'): ('(verts {})', 'List FlCoord'),
+            ('FlMPoint', 'geoshapes'): ('{}', 'List FlPoint'), ('FlMLine', 'geoshapes'): ('{}', 'List FlSLine'),
+            ('FlMPoly', 'geoshapes'): ('{}', 'List FlSPoly'), ('FlColl', 'geoshapes'): ('{}', 'List FlShape')}
+    abstract = {('FlSPoly', 'bounding_coords', ()): ('bcoords {0}', 'List FlCoord'),
+                ('FlBox', 'intersects_shape', ('FlSPoly',)): ('touches {1} {0}', 'Bool'),
+                ('FlBox', 'intersects_shape', ('FlSLine',)): ('touches {1} {0}', 'Bool'),
+                ('FlHasher', 'hash_shape', ('FlShape',)): ('hashOf {1}', 'Set FlCell')}
+    ctx = [('nbrs', 'C → List C'), ('touches', 'S → C → Bool'), ('pick', 'List C → Option C'), ('fuel', 'Nat'),
+           ('cellOf', 'K → C'), ('cen', 'S → K'), ('verts', 'S → List K'), ('bcoords', 'S → List K'),
+           ('hashOf', 'G → List C'), ('aggK', 'List K → A'), ('aggG', 'List G → A')]
+    return Unit('SrcFlood', src, 'GV.Src.Flood', ['GeoVerif.Model.Flood', 'GeoVerif.Model.PyPrelude', 'GeoVerif.Model.FloodPrelude'],
+                insts, {'FlHasher': N}, attr_types=attr, abstract=abstract,
+                header='variable {C K S G A : Type} [DecidableEq C]',
+                intrinsics={'_coord_to_niemeyer': cell_of, f'{N}._get_surrounding': surrounding, 'niemeyer_to_geobox': cell_box},
+                hooks={'worklist': True, 'isinstance': isinstance_hook, 'method': method, 'local_type': local_type, 'fuel': fuel,
+                       'fuel_out': 'Except.error "ERR:Fuel"',
+                       'set_add': 'GV.Flood.addSet {x} {s}', 'set_pop': 'pick {s}',
+                       'set_union': 'GV.Flood.unionAll ({xs}.map {f})',
+                       'set_union_e': '(GV.FloodPy.mapE {f} {xs}).map GV.Flood.unionAll',
+                       'dict_append': 'GV.Flood.dictAppend {d} {k} {v}'},
+                ctx_params=ctx)
+
+
 UNITS = {'SrcTime': time_unit, 'SrcBase': base_unit, 'SrcMulti': multi_unit, 'SrcColl': coll_unit, 'SrcPip': pip_unit,
          'SrcMember': member_unit, 'SrcTrack': track_unit, 'SrcRelate': relate_unit, 'SrcCoord': coord_unit,
-         'SrcCurved': curved_unit, 'SrcCalc': calc_unit}
+         'SrcCurved': curved_unit, 'SrcCalc': calc_unit,
+         'SrcFlood': flood_unit}
 
 
 def render(name):
